@@ -550,7 +550,7 @@ Print Assumptions C05_procdef_files.
    applies to it - here C05_transaction_safe. *)
 Theorem C05_files_accept_is_load : forall pq pp pf pd d fl,
   load_files pq pp pf pd d = OAccept fl ->
-  exists l, load (CF l (quota_defined (d_quotas d))) = Accept fl
+  exists l, load (CF l (quota_defined pq true (d_quotas d))) = Accept fl
             /\ forall fc, In fc l ->
                  exists f, In f (d_flows d) /\ decode_file flowcfg empty_flow pf f = Doc fc.
 Proof. intros pq pp pf pd d fl H. exact (accept_is_load pq pp pf pd d fl H). Qed.
@@ -579,9 +579,29 @@ Print Assumptions C05_files_transaction_safe.
 Theorem C05_load_files_conservative : forall pq pp pf pd qs ps l ds,
   forallb (fun q => qd_quotas q && qd_valid q) qs = true ->
   load_files pq pp pf pd (DIR (map Rendered qs) ps (map Rendered l) (map Rendered ds))
-  = of_verdict (load (CF l (quota_defined (map Rendered qs)))).
+  = of_verdict (load (CF l (existsb (fun q => qd_quotas q && qd_valid q) qs))).
 Proof. exact load_files_rendered. Qed.
 Print Assumptions C05_load_files_conservative.
+
+(* Extension 4 (audit 2, C05-2): "a quota is defined" is a function of the
+   DECODED quota documents - the file may be rendered by the harness or given as
+   bytes that the decoder proper turns into a usable document; a file without a
+   document (the empty object) defines nothing.  For every decoder. *)
+Theorem C05_quota_defined_is_decoded : forall pq qs,
+  quota_defined pq true qs = true <->
+  exists f q, In f qs /\ decode_file qdoc empty_qdoc pq f = Doc q
+              /\ qd_quotas q && qd_valid q = true.
+Proof. exact quota_defined_decoded. Qed.
+Print Assumptions C05_quota_defined_is_decoded.
+
+(* ... and in whatever the loader over files accepts, a quota is defined exactly
+   when there is a quota file (the quota loader has rejected every unusable
+   one): the [cf_quota] of C05_files_accept_is_load is not left to the decoder. *)
+Theorem C05_files_accept_quota_defined : forall pq pp pf pd d fl,
+  load_files pq pp pf pd d = OAccept fl ->
+  quota_defined pq true (d_quotas d) = match d_quotas d with [] => false | _ :: _ => true end.
+Proof. intros pq pp pf pd d fl H. exact (accept_quota_defined pq pp pf pd d fl H). Qed.
+Print Assumptions C05_files_accept_quota_defined.
 
 (* non-vacuity: the good configuration, its two flows as files, next to a
    comment-only path-parameter file and a document-less processor definition,
@@ -610,30 +630,37 @@ Proof. vm_compute. repeat split; try reflexivity. discriminate. Qed.
 (* ... and with a quota (audit 2): a flow whose Limiter names the quota the
    configuration defines is accepted next to a usable rendered quota file - a
    non-degenerate instance of the hypothesis of C05_load_files_conservative -
-   and rejected at processor creation (stage 2) without one.  A quota file
-   given as BYTES that the scanner leaves to the decoder proper counts as "no
-   quota defined" in [quota_defined] even if the decoder ([fun _ => Doc (QD true
-   true)] here) turns it into a usable document: for such files the model is
-   stricter than the code (stage 2 instead of acceptance); the `files` suite
-   never claims them (props `trusted`). *)
+   and rejected at processor creation (stage 2) without one.  Extension 4: a
+   quota file given as BYTES that the scanner leaves to the decoder proper
+   ("# q\n\nq: 1\n": a comment line, a blank line, content) and that the decoder
+   turns into a usable document defines the quota like a rendered one - same
+   flows; with a decoder that fails on it the quota loader rejects (stage 4);
+   with a decoder that returns a document without quotas, too. *)
 Definition wq_flow : flowcfg :=
   FC 7 true [PD 1 false 4 [2]]
      [CN ep_stream_start (ep_p 1 0); CN (ep_p 1 3) ep_stream_end; CN (ep_p 1 4) ep_stream_end]
      [CN ep_stream_start ep_stream_end].
+Definition wq_bytes : list Z := [35; 32; 113; 10; 10; 113; 58; 32; 49; 10].
 
 Example C05_files_quota_witness :
   forallb (fun q => qd_quotas q && qd_valid q) [QD true true] = true
   /\ (exists fs, fs <> [] /\
         load_files err_q err_p err_f err_d
           (DIR (map Rendered [QD true true]) [] (map Rendered [wq_flow]) []) = OAccept fs
-        /\ load (CF [wq_flow] true) = Accept fs)
+        /\ load (CF [wq_flow] true) = Accept fs
+        /\ load_files (fun _ => Doc (QD true true)) err_p err_f err_d
+             (DIR [Bytes wq_bytes] [] (map Rendered [wq_flow]) []) = OAccept fs)
   /\ load_files err_q err_p err_f err_d (DIR [] [] (map Rendered [wq_flow]) []) = OReject 2
-  /\ load_files (fun _ => Doc (QD true true)) err_p err_f err_d
-       (DIR [Bytes [113; 58; 32; 49; 10]] [] (map Rendered [wq_flow]) []) = OReject 2.
+  /\ scan wq_bytes = SOther
+  /\ quota_defined (fun _ => Doc (QD true true)) true [Bytes wq_bytes] = true
+  /\ load_files err_q err_p err_f err_d
+       (DIR [Bytes wq_bytes] [] (map Rendered [wq_flow]) []) = OReject 4
+  /\ load_files (fun _ => Doc (QD false true)) err_p err_f err_d
+       (DIR [Bytes wq_bytes] [] (map Rendered [wq_flow]) []) = OReject 4.
 Proof.
   split; [reflexivity|]. split.
-  - eexists. split; [|split; vm_compute; reflexivity]. discriminate.
-  - split; vm_compute; reflexivity.
+  - eexists. split; [|split; [|split]; vm_compute; reflexivity]. discriminate.
+  - repeat split; vm_compute; reflexivity.
 Qed.
 
 (* The seeded decoder (C05-8): only BLANK input gets an empty object - decided
@@ -702,7 +729,7 @@ Print Assumptions C05_startup_differs_only_where_validator_rejects_flow_files.
 
 Theorem C05_startup_accept_is_load : forall pq pp pf pd d fl,
   load_files_startup pq pp pf pd d = OAccept fl ->
-  exists l, load (CF l (quota_defined (d_quotas d))) = Accept fl
+  exists l, load (CF l (quota_defined pq true (d_quotas d))) = Accept fl
             /\ forall fc, In fc l ->
                  exists f, In f (d_flows d) /\ decode_file flowcfg empty_flow pf f = Doc fc.
 Proof. intros pq pp pf pd d fl H. exact (startup_accept_is_load pq pp pf pd d fl H). Qed.
